@@ -215,6 +215,33 @@ def fresh_check(ctx, scene, ref, what, case):
 # driver 2: crash points
 # ---------------------------------------------------------------------------
 
+def setup_cli_output(scene, rng):
+    from vf import cli_runs
+
+    tmp = scene.dir.parent / "cliout"
+    shutil.rmtree(tmp, ignore_errors=True)
+    cr = cli_runs.fasta_case(rng, tmp, tagged=False)
+    res = cli_runs.run_pretext_to_asm(cr, "cur.fa", ["--no-write-log"])
+    cli_runs.release_logging()
+    fas = sorted(tmp.glob("cur.*.fa"))
+    if res["exit_code"] != 0 or not fas:
+        return None
+    scene.wipe()
+    scene.reset_clock()
+    for p in tmp.iterdir():
+        if p.name.startswith("cur."):
+            shutil.copy(p, scene.dir / p.name)
+    scene.fa = scene.real = scene.dir / fas[0].name
+    scene.fai = Path(str(scene.fa) + ".fai")
+    scene.agp = Path(str(scene.fa) + ".agp")
+    scene.data = scene.fa.read_bytes()
+    t = scene.tick()
+    for p in scene.dir.iterdir():
+        os.utime(p, (t, t) if p == scene.fa else (t + 5, t + 5))  # side files are written just after the FASTA
+    shutil.rmtree(tmp, ignore_errors=True)
+    return scene.data
+
+
 def run_crash(shard, ctx):
     scratch = Path(os.environ.get("VERIF_SHARD_SCRATCH", "."))
     rng = rng_for(shard["seed"], "c15crash", shard["index"])
@@ -223,7 +250,17 @@ def run_crash(shard, ctx):
     ref = reference(data)
     scene = Scene(scratch / "crash")
     for scenario in shard["scenarios"]:
-        scene.setup(scenario, data, old)
+        if scenario == "cli-output":
+            # the FASTA to be indexed is one that pretext-to-asm has just written, its side files beside it
+            scene = Scene(scratch / "crash-cli")
+            data_cli = setup_cli_output(scene, rng_for(shard["seed"], "c15cli", shard["index"]))
+            if data_cli is None:
+                ctx.count("crash:cli-output-setup-failed")
+                continue
+            ref = reference(data_cli)
+            ctx.count("crash:cli-output-scenarios")
+        else:
+            scene.setup(scenario, data, old)
         snap = scene.snapshot()
         locs, res = sched.count_yield_points(scene.fa)
         ctx.count(f"crash:yield-points:{scenario}:{shard['size']}", len(locs))
@@ -533,7 +570,11 @@ def replay(case, ctx):
         data = SMALL if case["size"] == "small" else large_fasta(rng, 800)
         old = SMALL2 if case["size"] == "small" else large_fasta(rng_for(case["seed"], "old"), 700)
         scene = Scene(scratch / "crash")
-        scene.setup(case["scenario"], data, old)
+        if case["scenario"] == "cli-output":
+            scene = Scene(scratch / "crash-cli")
+            data = setup_cli_output(scene, rng_for(case["seed"], "c15cli", case["index"]))
+        else:
+            scene.setup(case["scenario"], data, old)
         ref = reference(data)
         if case["k"] is not None and case["kind"] == "interrupt":
             sched.run_until_interrupt(scene.fa, case["k"])
@@ -572,7 +613,7 @@ def plan(tier, seed):
         sh += [{"kind": "history", "mode": "all", "length": 4, "part": p, "nparts": 3, "clock": "future"} for p in range(3)]
     # crash points
     sh += [{"kind": "crash", "size": "small", "scenarios": ["cold", "stale", "equal-mtime"]},
-           {"kind": "crash", "size": "small", "scenarios": ["fai-deleted", "agp-deleted", "fresh"]}]
+           {"kind": "crash", "size": "small", "scenarios": ["fai-deleted", "agp-deleted", "fresh", "cli-output"]}]
     if quick:
         sh += [{"kind": "crash", "size": "large", "scenarios": ["stale"], "stride": 9}]
     else:
@@ -610,6 +651,7 @@ def gates(c, tier):
         "history:clock-subsecond-shards": 1,
         "history:reload-kept:loud": 10,
         "crash:runs": 400,
+        "crash:cli-output-scenarios": 1,
         "crash:at-raw-file-op": 100,
         "interrupt:runs": 150,
         "sched:runs": 600,
